@@ -199,3 +199,31 @@ CLAIMED['C18'] = ('model_checking',
     'Trusted: TLC, Index.tla/SplitColumns.tla, the concretiser; collation ranks and headings are computed by the harness from the real collator '
     'and unidecode (and the harness checks the selection of the collator with its own copy of the rule).',
     TECH)
+CLAIMED['C13'] = ('model_checking',
+    'Split.tla: TLC enumerates every document of up to 3 (thorough 4) sectioning units (level 1-3 without skipped levels, labelled?, footnote?, '
+    'title from a set with a repeated title and one made of characters illegal in file names) x split level 0-3 x filename template (default '
+    '`index [$id, sect$num(4)]`, `$title`, single name) and checks the machine layer (pre-order filename requests with static/alternative/'
+    'numbered candidates, Renderable.__str__ omitting file-owning children, footnotes gathered by the nearest file-owning section) against '
+    'the rule layer: MachineIsRule (file content = markers of the units whose nearest ancestor-or-self at or above the split level is that '
+    'file, in order, footnotes last), EveryWordOnceInOneFile, UnitsAtOrAboveLevelOwnFile, NamesDistinct.  Every emitted behaviour (quick: all '
+    'with <= 2 units, 5000 sampled with 3) is rendered by the real Compile.run into a scratch directory: the set of html files, their names and '
+    'the sequence of body/footnote markers per file must equal the specification; variants: book class (chapter level 0), XHTML renderer, split '
+    'level -10 and 6, a different bad-chars set, $title(1)/$num(2); every 16th document is rendered twice and compared.',
+    'DESIGN.md#c13',
+    'Trusted: TLC, Split.tla, the concretiser, marker extraction from html by tag stripping. Generated identifiers (a0000000012) are '
+    'normalised in the run-twice comparison because C17 owns them.',
+    TECH)
+CLAIMED['C14'] = ('model_checking',
+    'Split.tla with references: TLC enumerates documents x split level x template x references (from any unit to a labelled unit or to the '
+    'numbered equation of a unit; up to 1 reference exhaustively, up to 3 over 5 units by simulation), checks LinksLand (the file of the '
+    'target url is produced and a fragment target is written in it), NavIsAChain and NamesDistinct on the machine layer (Renderable.url, '
+    'SectionUtils.links) and prints the predicted href and shown number of each reference and prev/next/up of each file.  Each behaviour is '
+    'rendered by the real pipeline and the href and text of every reference, <link rel=prev|next|up> of every file, the footnote-mark -> '
+    'footnote pairing, and the home file of index links and citations are compared with the specification; on every output (plus variants: '
+    'index + bibliography, toc-depth 0/1, toc-non-files, base-url, minimal theme, XHTML, theme extras copied) a link-closure pass checks that '
+    'every non-external href/src names a produced file and an existing id, ids are unique per file and all pages are reachable from the '
+    'start page when the theme prints a table of contents.',
+    'DESIGN.md#c14',
+    'Trusted: TLC, Split.tla, the concretiser, html.parser. Documents are rendered in an empty directory (a stale .paux of another run '
+    'with the same labels changes hrefs; that is C03/C09 territory).',
+    TECH)
